@@ -81,11 +81,11 @@ CLAIMED.update({
         "one obligation per panic-capable SSA instruction (nil dereference, index and slice bounds, unchecked type assertion, division, explicit panic, non-nil receiver/node arguments "
         "of repository calls) generated from the current tree and discharged under the theory ast-valid (what the parser and type checker guarantee, deliberately nothing about "
         "argument counts derived from a callee's spelling; every fact guarded by 'is a node of a parsed tree', so the all-zero sentinel nodes of astcast and hand-built nodes are excluded; "
-        "validated against 7 643 real files in the thorough tier) and theory regex-syntax-valid (arity of the regexp parser's operations). About 3760 of about 3970 obligations are proved on the "
+        "validated against 7 643 real files in the thorough tier) and theory regex-syntax-valid (arity of the regexp parser's operations). About 3900 of about 4110 obligations are proved on the "
         "unchanged tree and recorded in ledger/C01.proved; the check fails when one of them no longer discharges or is replaced by an undischarged one, and when the solvers "
         "REFUTE (model, not timeout) a new safety obligation of a function that has no undecided obligation on the unchanged tree (a new or an entirely proved function). The remaining obligations (listed in the "
         "evidence as undecided_not_claimed) are NOT claimed - an undecided obligation is a place nobody has looked at, two genuine crashes were found exactly there by sub-agents. The sweep relies on "
-        "the contracts of other properties at call sites; the postconditions and loop invariants of those contracts are therefore obligations of this check as well (about 420). "
+        "the contracts of other properties at call sites; the postconditions, loop invariants and call-site clauses of those contracts are therefore obligations of this check as well (about 500). "
         "Termination of recursion: every function on a cycle of the static call graph (16 functions) carries a `decreases` measure - astDepth of a syntax node, typeDepth of a type literal "
         "(nothing is assumed about the underlying type of a defined type), rxDepth of a parsed regexp - or a stated reason (3 functions, listed as assumptions); one obligation per recursive call "
         "(34 discharged, 18 about regexp walkers in the frontier). "
@@ -158,11 +158,11 @@ CLAIMED.update({
 CLAIMED.update({
  "C07": dict(
    text="Zero-annotation deductive sweep over all call sites of CheckerContext.Warn / WarnFixable / WarnWithPos / WarnFixableWithPos in package checkers (96 sites): the node that "
-        "positions the diagnostic is a non-nil node of the analysed tree (never a node the checker built itself; astcopy copies keep positions) - pushed to the callers of warn helpers as "
-        "call-site preconditions; the format string is a compile-time constant with exactly one verb per argument (decided syntactically; this is what keeps source text from being interpreted "
+        "positions the diagnostic is a non-nil node of the parsed tree or a private copy of one (theory ast-valid: never a node the checker built itself, never the all-zero sentinel that astcast.ToX returns on a type mismatch) - "
+        "helpers that position a diagnostic at a parameter assume this of the parameter and every call of such a helper is an obligation (call/<helper>/pre/warn-node-<param>); the format string is a compile-time constant with exactly one verb per argument (decided syntactically; this is what keeps source text from being interpreted "
         "as a format and producing '%!d(MISSING)' artefacts); every formatted node argument is non-nil; an explicit position handed to WarnWithPos / WarnFixableWithPos "
         "is the result of a Pos() method, a token.Pos field of a go/ast node, or a record field / parameter all of whose sources are such values - arithmetic on positions is rejected (decided on the SSA). Plus contracts: the rule-engine reports are forwarded with position and fix unchanged; "
-        "the comment-formatting fix covers exactly the comment with a non-inverted range; asDiag forwards position and edit (C08). 216 of 228 obligations proved and recorded in ledger/C07.proved; "
+        "the comment-formatting fix covers exactly the comment with a non-inverted range; asDiag forwards position and edit (C08). 334 of 358 obligations proved and recorded in ledger/C07.proved (24 undecided, not claimed); "
         "new or changed call sites must discharge. Not covered: positions and ranges computed inside the rule engine; that Pos() of a tree node is a token start (theory ast-valid).",
    design="§7 C07", technique="contract-based deductive verification, Warn-site sweep (call-site obligations; SMT + syntactic decisions on constant formats)"),
 })
